@@ -803,6 +803,19 @@ func recordHistory(t *testing.T, tw *tracelog.Writer, seed int64, nops, drainEve
 		default:
 			amt = ref.MulRaw(int64(2 + rng.Intn(50)))
 		}
+		// boundary targeting: the exact input that consumes 1-3 whole buckets (the swap then stops
+		// exactly on an initialised tick), and its neighbours one unit below / above
+		if rng.Intn(5) == 0 {
+			if maxIn, maxOut, err := k.ComputeMaxInAmtGivenMaxTicksCrossed(w.Ctx, w.poolID, din, uint64(1+rng.Intn(3))); err == nil {
+				base := maxIn.Amount
+				if !exactIn {
+					base = maxOut.Amount
+				}
+				if base.IsPositive() {
+					amt = base.AddRaw(int64(rng.Intn(3) - 1))
+				}
+			}
+		}
 		if !amt.IsPositive() {
 			amt = osmomath.OneInt()
 		}
